@@ -334,6 +334,9 @@ func (e *Env) applyLeaf(m protoreflect.Message, fd protoreflect.FieldDescriptor,
 			setList(v)
 		case "dup":
 			setList(base, base)
+		case "eth_ext":
+			// the extension option that routes a transaction to the EVM ante handler
+			setList(e.anyMsg(md, "/ethermint.evm.v1.ExtensionOptionsEthereumTx", nil))
 		default:
 			return bad()
 		}
